@@ -47,6 +47,10 @@ type Ctx struct {
 	Funs  map[string]string  // uninterpreted function decls: name -> "(Real) Real"
 	byNm  map[string]*Term
 	Trig  []TrigPair // (angle, sin, cos) triples introduced by the executor
+	TrigOf map[int]TrigPair // by angle term id (pairs may be arbitrary terms, e.g. for acos)
+	InZeroPi map[int]bool   // angle terms known to lie in [0, pi]
+	Prefer   []*Term        // soft facts used only to pick replayable models (e.g. f32(x) = x)
+	preferred map[int]bool
 	// hooks installed by the executor
 	OnDomain    func(kind string, cond *Term) // a partial operation's side condition (divisor != 0, sqrt arg >= 0)
 	Concretize  func(t *Term) int64           // fork over the feasible values of an Int term
@@ -54,11 +58,23 @@ type Ctx struct {
 	Define      func(guard, fact *Term)       // global fact: guard => fact (definitions of fresh variables)
 }
 
+// AddPrefer records a soft fact: never assumed in a proof, only tried when a
+// counterexample has been found so that the reported model replays natively.
+func (c *Ctx) AddPrefer(t *Term) {
+	if c.preferred == nil {
+		c.preferred = map[int]bool{}
+	}
+	if !c.preferred[t.ID] {
+		c.preferred[t.ID] = true
+		c.Prefer = append(c.Prefer, t)
+	}
+}
+
 // TrigPair links an angle term with the variables standing for its sine and cosine.
 type TrigPair struct{ Angle, Sin, Cos *Term }
 
 func NewCtx() *Ctx {
-	return &Ctx{table: map[string]*Term{}, Funs: map[string]string{}, byNm: map[string]*Term{}}
+	return &Ctx{table: map[string]*Term{}, Funs: map[string]string{}, byNm: map[string]*Term{}, TrigOf: map[int]TrigPair{}, InZeroPi: map[int]bool{}}
 }
 
 func (c *Ctx) intern(t *Term) *Term {
